@@ -494,7 +494,7 @@ pub fn programs() -> Vec<Prog> {
     let red = Style { paren: Paren::Redundant, index_attrs: false, escape_all: false, ..Default::default() };
     let idx = Style { paren: Paren::Minimal, index_attrs: true, escape_all: false, ..Default::default() };
     let d1: Vec<E> = sh.iter().map(|s| (s.build)(&fill[..])).collect();
-    let mut push = |class: &str, label: String, text: String, small: bool, out: &mut Vec<Prog>| {
+    let push = |class: &str, label: String, text: String, small: bool, out: &mut Vec<Prog>| {
         out.push(Prog { class: class.to_string(), label, text, small });
     };
     // ---- depth 1: every shape, default operands, all parenthesisation modes (small set)
@@ -702,7 +702,8 @@ pub struct Passed {
 }
 
 fn chain(e: &miette::Report) -> String {
-    e.chain().map(|c| c.to_string()).collect::<Vec<_>>().join(": ")
+    // the generic "internal error: please file an issue" wrapper says nothing about what failed
+    e.chain().map(|c| c.to_string()).filter(|m| !m.starts_with("internal error: please file an issue")).collect::<Vec<_>>().join(": ")
 }
 
 fn head(s: &str) -> String {
